@@ -128,6 +128,17 @@ func (s *sim) junk() ([]byte, string) {
 			b[8+i] = byte(c >> (56 - 8*uint(i)))
 		}
 	}
+	if l >= 48 && r.Chance(35) { // sealed for real under a key anybody can guess (all-zero / all-ones): live id, fresh counter
+		var k [16]byte
+		if r.Bool() {
+			for i := range k {
+				k[i] = 0xff
+			}
+		}
+		mt := hv.Pick(r, []byte{0x80, 0x10})
+		h := header(mt, f.spec.sid, f.top+uint64(1+r.Intn(500)))
+		return append(h, sealDirect(k, h, []byte{1})...), "junk-guessable-key"
+	}
 	if l == 49 && r.Bool() { // a forged close: right shape, live id, fresh counter, no key
 		b[0] = 0x80
 		b[16] = 1
